@@ -90,6 +90,8 @@ def generated_structure(source, env_kwargs):
                     return inner
         raise Inconclusive(f"output expression not understood: {ast.unparse(call)[:80]}")
 
+    filter_names = {}       # t_k -> name of the jinja2 filter it was bound to
+
     def iter_var(it):
         # (undefined(name='x') if l_0_x is missing else l_0_x)
         if isinstance(it, ast.IfExp) and isinstance(it.orelse, ast.Name) and it.orelse.id in resolved:
@@ -97,9 +99,27 @@ def generated_structure(source, env_kwargs):
         if isinstance(it, ast.Name) and it.id in resolved:
             return resolved[it.id]
         raise Inconclusive(f"loop source not a context variable: {ast.unparse(it)[:80]}")
+
+    def iter_filtered(it):
+        "-> (context variable, [filter names, innermost first])"
+        fl = []
+        while isinstance(it, ast.Call) and isinstance(it.func, ast.Name) and it.func.id in filter_names:
+            args = [x for x in it.args if not (isinstance(x, ast.Name) and x.id in ("environment", "context"))
+                    and not (isinstance(x, ast.Attribute) and ast.unparse(x) in ("context.eval_ctx",))]
+            if len(args) != 1 or it.keywords:
+                raise Inconclusive(f"filter with arguments: {ast.unparse(it)[:80]}")
+            fl.append(filter_names[it.func.id])
+            it = args[0]
+        return iter_var(it), list(reversed(fl))
     for st in root.body:
         if isinstance(st, ast.Assign) and isinstance(st.value, ast.Call) and ast.unparse(st.value.func) == "resolve":
             resolved[st.targets[0].id] = st.value.args[0].value
+        elif isinstance(st, ast.Try) and len(st.body) == 1 and isinstance(st.body[0], ast.Assign) and isinstance(st.body[0].value, ast.Subscript) \
+                and ast.unparse(st.body[0].value.value) == "environment.filters" and isinstance(st.body[0].value.slice, ast.Constant):
+            filter_names[st.body[0].targets[0].id] = st.body[0].value.slice.value       # t_1 = environment.filters['unique']
+        elif isinstance(st, ast.Assign) and isinstance(st.value, ast.Subscript) and ast.unparse(st.value.value) == "environment.filters" \
+                and isinstance(st.value.slice, ast.Constant):
+            filter_names[st.targets[0].id] = st.value.slice.value
         elif isinstance(st, ast.Assign) or isinstance(st, ast.Pass) or (isinstance(st, ast.If) and ast.unparse(st.test) == "0"):
             continue
         elif isinstance(st, ast.Expr) and isinstance(st.value, ast.Yield):
@@ -113,7 +133,7 @@ def generated_structure(source, env_kwargs):
         elif isinstance(st, ast.For):
             if not isinstance(st.target, ast.Name) or st.orelse:
                 raise Inconclusive("loop shape")
-            var = iter_var(st.iter)
+            var, filters = iter_filtered(st.iter)
             body = []
             for b in st.body:
                 if isinstance(b, (ast.Pass, ast.Assign)):
@@ -126,14 +146,16 @@ def generated_structure(source, env_kwargs):
                         body.append(("item", item_how(v, st.target.id)))
                 else:
                     raise Inconclusive(f"loop body statement not understood: {ast.unparse(b)[:80]}")
-            out.append(("loop", var, body))
+            out.append(("loop", var, body, filters) if filters else ("loop", var, body))
         else:
             raise Inconclusive(f"statement not understood: {ast.unparse(st)[:80]}")
     return out
 
 
 # ------------------------------------------------------------------ expectation from the template SOURCE text
-FOR_RX = re.compile(r"\{%(-?)\s*for\s+(\w+)\s+in\s+(\w+)\s*(-?)%\}(.*?)\{%(-?)\s*endfor\s*(-?)%\}", re.S)
+# a filter chain on the loop source (`x in lines|unique`) is accepted and IGNORED here: the expectation is what the property
+# demands (every line, once, in order), not what the template's filters make of the lines
+FOR_RX = re.compile(r"\{%(-?)\s*for\s+(\w+)\s+in\s+(\w+)(?:\s*\|\s*\w+(?:\([^)%]*\))?)*\s*(-?)%\}(.*?)\{%(-?)\s*endfor\s*(-?)%\}", re.S)
 
 
 def source_structure(source):
@@ -196,6 +218,48 @@ def z_item(x, how, side):
     raise Inconclusive(how)
 
 
+_UNIQUE_KEY = z3.Function("jinja_unique_key", z3.StringSort(), z3.StringSort())
+
+
+def apply_filters_sym(items, filters):
+    """items: [(guard, term)] -> same after jinja2 list filters.  `unique` keeps the first of the items that have the same key
+    (jinja2 compares case-insensitively by default: the key is an uninterpreted function of the string, so equal strings always
+    collide and different ones may - a model is replayed on the real jinja2 before it is believed)."""
+    for f in filters:
+        if f == "unique":
+            new = []
+            for i, (g, x) in enumerate(items):
+                earlier = [z3.And(gj, _UNIQUE_KEY(xj) == _UNIQUE_KEY(x)) for gj, xj in items[:i]]
+                new.append((z3.And(g, z3.Not(z3.Or(*earlier))) if earlier else g, x))
+            items = new
+        elif f == "reverse":
+            items = list(reversed(items))
+        elif f == "list":
+            pass
+        else:
+            raise Inconclusive(f"filter '{f}' on a loop source is outside the translator's subset")
+    return items
+
+
+def apply_filters_concrete(values, filters):
+    for f in filters:
+        if f == "unique":
+            seen, out = set(), []
+            for v in values:
+                k = v.lower() if isinstance(v, str) else v
+                if k not in seen:
+                    seen.add(k)
+                    out.append(v)
+            values = out
+        elif f == "reverse":
+            values = list(reversed(values))
+        elif f == "list":
+            values = list(values)
+        else:
+            raise Inconclusive(f"filter '{f}'")
+    return values
+
+
 def render_term(struct, ctx, side):
     "ctx: var -> list of z3 string terms.  Returns one z3 string term."
     parts = []
@@ -204,13 +268,15 @@ def render_term(struct, ctx, side):
             if p[1]:
                 parts.append(z3.StringVal(p[1]))
         elif p[0] == "loop":
-            for x in ctx.get(p[1], []):
+            items = apply_filters_sym([(z3.BoolVal(True), x) for x in ctx.get(p[1], [])], p[3] if len(p) > 3 else [])
+            for g, x in items:
                 for b in p[2]:
                     if b[0] == "const":
                         if b[1]:
-                            parts.append(z3.StringVal(b[1]))
+                            parts.append(z3.StringVal(b[1]) if z3.is_true(g) else z3.If(g, z3.StringVal(b[1]), z3.StringVal("")))
                     else:
-                        parts.append(z_item(x, b[1], side))
+                        t = z_item(x, b[1], side)
+                        parts.append(t if z3.is_true(g) else z3.If(g, t, z3.StringVal("")))
         elif p[0] == "var":
             raise Inconclusive("plain variable output")
     if not parts:
@@ -227,7 +293,7 @@ def render_concrete(struct, ctx):
         if p[0] == "const":
             out.append(p[1])
         elif p[0] == "loop":
-            for x in ctx.get(p[1], []):
+            for x in apply_filters_concrete(list(ctx.get(p[1], [])), p[3] if len(p) > 3 else []):
                 for b in p[2]:
                     if b[0] == "const":
                         out.append(b[1])
